@@ -553,6 +553,8 @@ func run(c *reg.Ctx) {
 		emitPeach(c, twoFail, 0, 0, false, procs)
 		emitPeach(c, twoFail, 4, 1, false, procs)
 	}
+	// 1b. stress stream: thousands of cheap bound-1 / bound-k iterations, aggregated
+	stress(c)
 	// 2. generated
 	for i := 0; i < c.N; i++ {
 		n := size(c)
